@@ -169,9 +169,18 @@ Fixpoint pword (fuel : nat) (s : bytes) (acc : bytes) : option (bytes * bytes) :
     end
   end.
 
+(* between words: blanks, and backslash-newline pairs (XCU 2.2.1: "the backslash and newline shall
+   be removed before splitting the input into tokens", so a continuation between two words
+   neither starts nor is a word) *)
 Fixpoint skip_blank (s : bytes) : bytes :=
   match s with
-  | c :: r => if (c =? SP) || (c =? TAB) then skip_blank r else s
+  | c :: r => if (c =? SP) || (c =? TAB) then skip_blank r
+              else if c =? BSL then
+                match r with
+                | e :: r' => if e =? NL then skip_blank r' else s
+                | [] => s
+                end
+              else s
   | [] => []
   end.
 
